@@ -109,6 +109,54 @@ let handle (toks : string list) : string =
        let mem = Machine.mem_of c m.Machine.m_w.Machine.w_log in
        String.concat " " (Stdlib.List.map ob obs @ ["M." ^ cells mem])
      | _ -> failwith "shm: bad header")
+  | ("seg" | "wrt") as tag :: kind :: n :: rest ->
+    (* file object: kind 0 = file with the n bytes that follow, 1 = missing, 2 = directory *)
+    let n = int_of_string n in
+    let rec take k l acc = if k = 0 then (Stdlib.List.rev acc, l) else (match l with x :: t -> take (k - 1) t (x :: acc) | [] -> failwith "seg: short") in
+    let (bs, tl) = take n rest [] in
+    let bytes = Stdlib.List.map z_of_string bs in
+    let f = (match kind with "0" -> Open.FFile bytes | "1" -> Open.FMissing | _ -> Open.FDir) in
+    let opn = Open.reader_open f in
+    let ostr = (match opn with
+      | Open.OpenOk _ -> "ok"
+      | Open.OpenErr Open.KNotInitialized -> "notinit:0:"
+      | Open.OpenErr Open.KMalformed -> "malformed:0:"
+      | Open.OpenErr (Open.KSyscall (e, o)) -> "syscall:" ^ string_of_z e ^ ":" ^ string_of_z o) in
+    if tag = "seg" then begin
+      match Stdlib.List.map z_of_string tl with
+      | [re_s; re_n; mo_s; mo_n] ->
+        let nowstr = (match opn with
+          | Open.OpenErr _ -> "-"
+          | Open.OpenOk h ->
+            let padded = Open.pad_to bytes (nat_of_int 72) in
+            let odd = (match Z.div_eucl h.Layout.h_generation (z_of_int 2) with (_, Z0) -> false | _ -> true) in
+            let c = if odd then Some { Client.c_as_of = { Mach.ts_sec = Z0; Mach.ts_nsec = Z0 }; Client.c_void_after = { Mach.ts_sec = Z0; Mach.ts_nsec = Z0 };
+                                       Client.c_bound = Z0; Client.c_drift = Z0; Client.c_reserved = Z0; Client.c_status = Client.Unknown }
+                    else Layout.decode_ceb padded (nat_of_int 16) in
+            (match c with
+             | None -> "skip"
+             | Some c ->
+               (match Client.compute_bound_at c { Mach.ts_sec = re_s; Mach.ts_nsec = re_n } { Mach.ts_sec = mo_s; Mach.ts_nsec = mo_n } with
+                | Client.Ok ((e, l), st) ->
+                  String.concat ":" ["ok"; string_of_z e.Mach.ts_sec; string_of_z e.Mach.ts_nsec;
+                                     string_of_z l.Mach.ts_sec; string_of_z l.Mach.ts_nsec; string_of_z (Client.status_code st)]
+                | Client.Err Client.EMalformed -> "malformed:0:"
+                | Client.Err Client.ECausality -> "causality:0:"
+                | Client.Panic -> "panic"))) in
+        "O:" ^ ostr ^ " N:" ^ nowstr
+      | _ -> failwith "seg: 4 clock integers expected"
+    end else begin
+      match Stdlib.List.map z_of_string tl with
+      | [as_s; as_n; va_s; va_n; bound; drift; st] ->
+        let status = (match Client.status_of_code st with Some s -> s | None -> Client.Unknown) in
+        let r = { Client.c_as_of = { Mach.ts_sec = as_s; Mach.ts_nsec = as_n };
+                  Client.c_void_after = { Mach.ts_sec = va_s; Mach.ts_nsec = va_n };
+                  Client.c_bound = bound; Client.c_drift = drift; Client.c_reserved = Z0; Client.c_status = status } in
+        (match Open.after_first_publication f r with
+         | None -> "W:err"
+         | Some bs' -> "W:ok " ^ String.concat " " (Stdlib.List.map string_of_z bs'))
+      | _ -> failwith "wrt: 7 record integers expected"
+    end
   | "gro" :: e :: d :: [] -> string_of_z (Client.growth (z_of_string e) (z_of_string d))
   | tag :: _ -> failwith ("unknown tag " ^ tag)
   | [] -> ""
